@@ -22,35 +22,35 @@ CHECKS = {
    "Trusted: the reference call Codec::decode on one isolated frame defines the packet for a frame; the hand-written SimStream/LinkState; tokio's paused clock. Transport never over-fills the offered slice.",
    "deterministic simulation: seeded link/fault scripts + sequential reference model (refinement), blocking==tokio differential"),
  "C06": ("exploration", "7/C06, 3, 4.1",
-   "Seeded simulation of write sessions over a transport that accepts k in 1..=offered bytes per call or answers Pending; every byte the peer captures must continue the frame in flight or a keep-alive reply, and Ok means the whole frame is on the wire.",
+   "Seeded simulation of write sessions over a transport that accepts k in 1..=offered bytes per call or answers Pending (tokio: optionally buffering until flushed, with a flush that may be Pending; blocking: EINTR), interleaved with keep-alive reads, dropped reads and abandoned writes; every byte the peer captures must continue the frame in flight or a keep-alive reply, and Ok means the whole frame is on the wire and flushed.",
    "Trusted: Codec::encode(p) is the expected frame; SimStream write half. Transport never fails / never returns 0 (excluded by the property).",
    "deterministic simulation: short-write / Pending fault injection on the write half + byte-exact wire oracle"),
  "C07": ("exploration", "7/C07, 3",
-   "Seeded read-only sessions mixing keep-alives with every TINY sub-type/request id and all other kinds under random segmentation, plus the complete (sub-type, reqi) sweep; oracle counts replies on the captured wire at every event.",
+   "Seeded sessions mixing keep-alives with every TINY sub-type/request id and all other kinds (gate on or off) under random segmentation, with a write half that is healthy, slow, buffering, or refusing whole replies (error / Ok(0)), and dropped reads; plus the complete (sub-type, reqi) sweep; oracle counts replies on the captured wire at every event.",
    "Trusted: keep-alive := reference decode is Tiny{None, reqi 0}; healthy write half in this workload.",
    "deterministic simulation: history checker over captured outgoing bytes (reply-count invariants per event) + exhaustive (subtype, reqi) sweep"),
  "C09": ("exploration", "7/C09",
-   "Complete sweep of the 256 InSim version values x gate on/off/default x both implementations x both modes inside short random histories, plus seeded histories with VER frames anywhere; per-frame comparison against the model's gate decision.",
+   "Complete sweep of the 256 InSim version values x gate on/off/default x both implementations x both modes inside short random histories, plus seeded histories with VER frames anywhere (non-zero spare bytes, handshakes asking for other versions, dropped reads under a slow write half); per-frame comparison against the model's gate decision, which reads the reported version from the wire by the specification; the gate stays accountable after a rejection.",
    "Trusted: the version byte is read from the reference decode; after a correct rejection nothing further is demanded.",
    "deterministic simulation: exhaustive version-value sweep + seeded histories against the reference model"),
  "C04": ("fault_enumeration", "7/C04",
-   "Three completely enumerated single-fault spaces (every (size byte, type byte) header x both modes x two fills; every byte position of one frame per packet kind x substitute values (all 256 in the thorough tier); every truncation point of those frames followed by valid frames) plus seeded multi-fault sessions, delivered in scripted segments into one long-lived receive buffer; the property's invariants (no panic, need-more leaves the buffer untouched, exactly the announced frame removed, framing error for impossible lengths, result independent of following bytes) are checked after every decoder call, and the same streams run through both real connections.",
+   "Five enumerated fault spaces (every (size byte, type byte) header x both modes x two fills; every byte position of one frame per packet kind x substitute values (all 256 in the thorough tier); every truncation point of those frames followed by valid frames; multi-byte text patterns at every body position; every pair of body positions of short frames x enumerant-range value pairs) plus seeded multi-fault sessions, delivered in scripted segments into one long-lived receive buffer; the property's invariants (no panic, need-more leaves the buffer untouched, exactly the announced frame removed, framing error for impossible lengths, result independent of following bytes and of what the same Codec saw in another buffer) are checked after every decoder call, and the same streams run through both real connections.",
    "'For all byte strings' is sampled apart from the enumerated sub-spaces. Built with overflow-checks and debug-assertions on. Trusted: catch_unwind boundary, hand-written invariant checker.",
    "fault enumeration over header/byte/truncation spaces + seeded corruption sessions, invariants after every decoder call"),
  "C08": ("exploration", "7/C08, 4.2",
-   "Real blocking and tokio UdpStream adaptors inside the real Framed over kernel loopback sockets driven in lock-step from one thread: seeded datagram sequences (1..n frames per datagram, 4..1020 bytes, fixed-shape or mixed, peer-side loss/duplication/reordering) up to ~10x the receive buffer; each read must return the model's next frame, each keep-alive and each write must reach the peer as exactly one datagram.",
+   "Real blocking and tokio UdpStream adaptors inside the real Framed over kernel loopback sockets driven in lock-step from one thread: seeded datagram sequences (1..n frames per datagram, 4..1020 bytes, fixed-shape or mixed, peer-side loss/duplication/reordering) up to ~10x the receive buffer, reads into an empty queue (socket timeout), peer crash and restart on the same port (ICMP error queued on the connection's socket, with and without a buffered keep-alive), packets the encoder refuses; each read must return the model's next frame, each keep-alive and each write that returns Ok must reach the peer as exactly one datagram holding exactly its frame.",
    "Loopback kernel sockets are a real component: order-preserving and lossless at <= 8 datagrams in flight; real time with a 3 s guard per call. Honest scripting over a real pipe, not full simulation (DESIGN 4.2).",
    "seeded lock-step scripting of real adaptors over loopback (datagram loss/dup/reorder applied by the peer script) against the sequential model"),
  "C17": ("fault_enumeration", "7/C17, 4.3",
-   "Generated canonical PTH/SMX images driven through an in-memory faulty disk: every truncation point of small files (structural + sampled for larger, plus the shipped sample files), short reads/EINTR/EIO, saves with short writes/EINTR/ENOSPC, crash after k durable bytes with prefix / zero-filled / stale-tail survivors re-parsed, byzantine count fields and random bytes under a counting allocator, and real temp files for from_file/from_pathbuf.",
+   "Generated canonical PTH/SMX images driven through an in-memory faulty disk: every truncation point of small files (structural + sampled for larger, plus the shipped sample files), short reads/EINTR/EIO, saves with short writes/EINTR/ENOSPC, crash after k durable bytes with prefix / zero-filled / stale-tail survivors re-parsed, files behind a prefix in the stream, byzantine count fields and random bytes under a counting allocator (huge requests reserved, not committed, so they are measured instead of aborting), and real temp files for from_file/from_pathbuf incl. hostile counts.",
    "The library has no durability protocol: crash = writer dies after k accepted bytes. Allocation failure not injected, only size bounded (64 x input + 64 KiB). Image generator encodes the on-disk formats independently of the library.",
    "crash-point / truncation enumeration + seeded disk-fault scripts (short, EINTR, EIO, ENOSPC, torn tails) with round-trip and rejection oracles"),
  "C18": ("exploration", "7/C18",
-   "Seeded builder call sequences (0..40 calls, all setters, overriding, clearing, tcp/udp with and without local address) against a last-writer-wins model, field by field; complete sweep of each single-flag setter from each of the 2^10 flag states; a third of the cases run Framed::handshake over the simulated link with short writes/Pending and compare the peer's bytes; ~1% run the real connect_blocking/connect_async against loopback TCP/UDP peers and require the ISI as first and only frame.",
+   "Seeded builder call sequences (0..40 calls, all setters, overriding, clearing, tcp/udp with and without local address) against a last-writer-wins model, field by field; complete sweep of each single-flag setter from each of the 2^10 flag states; a third of the cases run Framed::handshake over the simulated link with short writes/Pending/transient errors and compare the peer's bytes with an ISI frame laid out by hand from the specification; ~1% run the real connect_blocking/connect_async against loopback TCP/UDP peers and require the ISI as first and only frame.",
    "Builder->Isi is a pure function: the simulator contributes configuration swarm and decides only the I/O half. Relay connect paths are unreachable offline. UDP 'only frame' = no second datagram within 30 ms.",
    "configuration exploration against a reference model + simulated handshake under write faults + real connect over loopback"),
  "C20": ("exploration", "7/C20, 4.2",
-   "Real WebsocketStream inside the real tokio Framed against a scripted tokio-tungstenite server endpoint in the same current-thread runtime over a loopback TCP pair: seeded partitions of the frame stream into binary messages (one per message, several, split anywhere, > 1020 and > 6120 bytes, every message starting inside a frame), interleaved text/ping/pong/empty messages, writes, close handshake or abrupt drop; reads must equal the model on the concatenated payloads, writes/keep-alive replies must arrive as exactly one binary message.",
+   "Real WebsocketStream inside the real tokio Framed against a scripted tokio-tungstenite server endpoint in the same current-thread runtime over a loopback TCP pair: seeded partitions of the frame stream into binary messages (one per message, several, split anywhere, > 1020 and > 6120 bytes, every message starting inside a frame), interleaved text/ping/pong/empty messages and runs of 33..90 control messages, writes and write bursts against a late reader with minimal socket buffers (back-pressure), close handshake with any status code or abrupt drop, end of stream queued behind unread data; reads must equal the model on the concatenated payloads without stalling, writes/keep-alive replies must arrive as exactly one binary message.",
    "Loopback TCP and tungstenite's protocol engine are real components; real time with a 3 s guard per call; HTTP upgrade to isrelay.lfs.net is bypassed with from_raw_socket.",
    "seeded lock-step scripting of the real adaptor against a scripted WebSocket server, sequential model on concatenated binary payloads"),
  "C19": ("exploration", "7/C19, 4.1",
